@@ -21,6 +21,8 @@ import (
 type c16entry struct {
 	user, pass string
 	shape      int // 0: user:hash, 1: user:hash:m1, 2: user:hash: (empty mount point)
+	// nodigest: the fingerprint column is empty ("user:" / "user::m1"): no password has that fingerprint, the account is locked
+	nodigest bool
 }
 
 func (e c16entry) mount() string {
@@ -31,6 +33,9 @@ func (e c16entry) mount() string {
 }
 func (e c16entry) line() string {
 	h := fmt.Sprintf("%x", sha256.Sum256([]byte(e.pass)))
+	if e.nodigest {
+		h = ""
+	}
 	switch e.shape {
 	case 1:
 		return e.user + ":" + h + ":m1"
@@ -42,7 +47,13 @@ func (e c16entry) line() string {
 
 var c16users = []string{"alice", "bob", "carol", "dave", "eve", "mallory"}
 
-func c16pass(u string) string { return "pw-" + u }
+// eve's configured password is the empty one (its fingerprint is the digest of nothing, not nothing)
+func c16pass(u string) string {
+	if u == "eve" {
+		return ""
+	}
+	return "pw-" + u
+}
 
 func permutations(n int) [][]int {
 	var out [][]int
@@ -127,6 +138,18 @@ func TestC16Store(t *testing.T) {
 					es[i] = base[j]
 				}
 				tables = append(tables, table{es})
+				if n <= 2 {
+					// the same table with a locked account (empty fingerprint column) at every position
+					for pos := 0; pos <= n; pos++ {
+						for _, lsh := range []int{0, 1} {
+							var with []c16entry
+							with = append(with, es[:pos]...)
+							with = append(with, c16entry{user: "locked", pass: "", shape: lsh, nodigest: true})
+							with = append(with, es[pos:]...)
+							tables = append(tables, table{with})
+						}
+					}
+				}
 			}
 		}
 	}
@@ -187,7 +210,7 @@ func TestC16Store(t *testing.T) {
 				break
 			}
 		}
-		cands = append(cands, cand{"", tb.entries[0].pass}, cand{"", ""}, cand{"nobody", "wrong"})
+		cands = append(cands, cand{"", tb.entries[0].pass}, cand{"", ""}, cand{"nobody", "wrong"}, cand{"nobody", ""})
 		for _, c := range cands {
 			evals.Add(1)
 			var pr auth.Principal
@@ -199,7 +222,7 @@ func TestC16Store(t *testing.T) {
 				continue
 			}
 			e, ok := model[c.u]
-			want := ok && e.pass == c.p
+			want := ok && e.pass == c.p && !e.nodigest
 			outcomes.AddString(fmt.Sprintf("%v/%v/%s", want, aerr == nil, pr.MountPoint))
 			switch {
 			case want && aerr != nil:
@@ -256,7 +279,8 @@ func TestC16Store(t *testing.T) {
 	rep.Bounds["users"] = c16users
 	rep.Bounds["tables"] = len(tables)
 	rep.Bounds["all_orders_up_to_entries"] = fullUpTo
-	rep.Bounds["shapes"] = []string{"user:fingerprint", "user:fingerprint:m1", "user:fingerprint:<empty>"}
+	rep.Bounds["shapes"] = []string{"user:fingerprint", "user:fingerprint:m1", "user:fingerprint:<empty>", "user:<empty fingerprint> (locked account, tables of <= 2 other entries)"}
+	rep.Bounds["empty_password"] = "eve's configured password is the empty string"
 	rep.Extra["accepted_expected"] = accepted.Load()
 	rep.Extra["rejected_expected"] = rejected.Load()
 	rep.Rule = "states = credential tables (subsets of 6 users x field shapes x file orders) + 25 static stores; transitions = Authenticate calls; non-trivial = tables mixing 2- and 3-field lines"
